@@ -620,7 +620,29 @@ Section Scan.
     end.
 
   (* JApiCore.next *)
+  (* the guard at the top of JApiCore.next: lexemes that need a directive when there is none *)
+  Definition orphan_lexeme (st : cstate) (l : lexeme) : option (cres cstate) :=
+    match cs_cur st with
+    | Some _ => None
+    | None =>
+        match lk l with
+        | LParameter =>
+            match lex_value st l with
+            | None => Some (CPanic CPLexemeValue)
+            | Some v => Some (CErr (core_error st (mkMsg "%s %q" [str ErrConsts.jerr_IncorrectParameter; unquote v]) (lb l)))
+            end
+        | LAnnotation =>
+            Some (CErr (core_error st (msg1 ErrConsts.jerr_AnnotationIsForbiddenForTheDirective) (lb l)))
+        | LSchema | LText | LJson | LEnum | LContextOpen =>
+            Some (CErr (core_error st (msg1 ErrConsts.jerr_IncorrectDirectiveContext) (lb l)))
+        | _ => None
+        end
+    end.
+
   Definition core_next (st : cstate) (l : lexeme) : cres cstate :=
+    match orphan_lexeme st l with
+    | Some r => r
+    | None =>
     match lk l with
     | LKeyword => process_keyword st l
     | LParameter => process_parameter st l
@@ -628,6 +650,7 @@ Section Scan.
     | LSchema | LText | LJson | LEnum => process_body st l
     | LContextOpen => process_context_begin st
     | LContextClose => process_context_end st
+    end
     end.
 
   Definition lexeme_error (st : cstate) (l : lexeme) (m : cmsg) : cerr :=
